@@ -150,12 +150,28 @@ func c07Cases(tier string) []c07Case {
 			out = append(out, c07Case{m, "http-answer", c07Elem{Name: h.name, Emit: func(w scriptWriter, mode string) { w.HTTP(h.status, h.ct, h.body) }}, nil})
 		}
 	}
+	// legacy SSE: the element arrives in the same burst as the endpoint event (after it / before it)
+	for _, p := range []string{"at-connect", "before-endpoint"} {
+		for _, e := range els {
+			if e.Only != "" && !strings.Contains("ls", e.Only) {
+				continue
+			}
+			out = append(out, c07Case{"ls", p, e, nil})
+		}
+	}
 	// legacy SSE: the endpoint event never arrives / arrives late
 	out = append(out, c07Case{"ls", "no-endpoint", c07Elem{Name: "missing-endpoint", Emit: func(w scriptWriter, mode string) { w.Raw(": hello\n\n") }}, nil})
 	return out
 }
 
 func c07Eval(tier string, cs c07Case) CaseResult {
+	cr, _ := c07Exec(cs, vsched.Config{MaxSteps: 60000})
+	return cr
+}
+
+// c07Exec runs one adversarial case under the given scheduler configuration (default schedule for the
+// enumeration, a replayed prefix for the schedule-exploring scenarios).
+func c07Exec(cs c07Case, cfg vsched.Config) (CaseResult, explore.Outcome) {
 	name := cs.Elem.Name
 	if cs.Elem2 != nil {
 		name += "+" + cs.Elem2.Name
@@ -164,7 +180,9 @@ func c07Eval(tier string, cs c07Case) CaseResult {
 	var viol []explore.Violation
 	obs := &hx.Log{}
 	k := func(kind string) string { return fmt.Sprintf("%s:%s:%s:%s", kind, cs.Mode, cs.Point, name) }
-	cfg := vsched.Config{MaxSteps: 60000}
+	if cfg.MaxSteps == 0 {
+		cfg.MaxSteps = 60000
+	}
 	res := vsched.Run(cfg, func() {
 		ss := newScriptedServer(cs.Mode)
 		emit := func(w scriptWriter) {
@@ -215,6 +233,10 @@ func c07Eval(tier string, cs c07Case) CaseResult {
 			}
 		case "no-endpoint":
 			ss.onStream = func(w scriptWriter) { emit(w) }
+		case "at-connect": // the element follows the endpoint event in the same burst, before the handshake has started
+			ss.onStream = func(w scriptWriter) { w.Raw("event: endpoint\ndata: /message?sessionId=s1\n\n"); emit(w) }
+		case "before-endpoint":
+			ss.onStream = func(w scriptWriter) { emit(w); w.Raw("event: endpoint\ndata: /message?sessionId=s1\n\n") }
 		}
 		cl, err := ss.client()
 		if err != nil {
@@ -244,7 +266,7 @@ func c07Eval(tier string, cs c07Case) CaseResult {
 		}
 		if initErr != nil {
 			obs.Add("init-err")
-			if cs.Point != "during-handshake" && cs.Point != "no-endpoint" {
+			if cs.Point != "during-handshake" && cs.Point != "no-endpoint" && cs.Point != "at-connect" && cs.Point != "before-endpoint" {
 				viol = append(viol, V("harness", "handshake failed although nothing adversarial was sent: %v", initErr))
 				return
 			}
@@ -317,16 +339,29 @@ func c07Eval(tier string, cs c07Case) CaseResult {
 		ss.stop()
 	})
 	o := finishOutcome(res, obs, viol, true)
+	// horizon = spin: give it the case's key
+	for i, v := range o.Violations {
+		if v.Key == "horizon" || v.Key == "deadlock" {
+			o.Violations[i].Key = k(v.Key)
+		}
+	}
 	cr.ObsKey = cr.Desc + "|" + o.ObsKey
 	cr.Violations = o.Violations
 	cr.Broken = o.Broken
-	// horizon = spin: give it the case's key
-	for i, v := range cr.Violations {
-		if v.Key == "horizon" || v.Key == "deadlock" {
-			cr.Violations[i].Key = k(v.Key)
+	return cr, o
+}
+
+// c07BurstCases are the legacy-SSE connect bursts explored over schedules (the reader goroutine
+// handles the burst while Initialize is still between "endpoint received" and "started").
+func c07BurstCases() []c07Case {
+	var out []c07Case
+	for _, e := range c07Elems("quick") {
+		switch e.Name {
+		case "sse-second-endpoint", "sse-endpoint-bad-url", "sse-endpoint-empty", "request-roots-list", "notification-unknown", "garbage-bytes":
+			out = append(out, c07Case{"ls", "at-connect", e, nil})
 		}
 	}
-	return cr
+	return out
 }
 
 // background returns a writer on the stream the server may use unsolicited.
@@ -348,8 +383,20 @@ func init() {
 		Eval:  func(tier string, i int) CaseResult { return c07Eval(tier, c07Cases(tier)[i]) }})
 	RegisterCheck("C07", func(c *Ctx) {
 		c.Level = "fault_enumeration"
-		c.Rule = "complete enumeration of (client mode) x (insertion point: during handshake, before the answer, after the answer, on the idle background stream, HTTP-level answer) x (adversarial element alphabet: garbage, non-JSON, every JSON type, wrong-kind frames, ids of every type, SSE/stdio framing oddities, 64KiB+1 frame); thorough adds all pairs of elements; oracle: no panic, no spin (step horizon), the affected call returns, a later call succeeds, later frames on the background stream are delivered, Close returns"
+		c.Rule = "complete enumeration of (client mode) x (insertion point: during handshake, before the answer, after the answer, on the idle background stream, HTTP-level answer, and for legacy SSE in the same burst as the endpoint event, before or after it - the latter also explored over schedules with P<=2) x (adversarial element alphabet: garbage, non-JSON, every JSON type, wrong-kind frames, ids of every type, SSE/stdio framing oddities, 64KiB+1 frame); thorough adds all pairs of elements; oracle: no panic, no spin (step horizon), the affected call returns, a later call succeeds, later frames on the background stream are delivered, Close returns"
 		c.Assume = append(c.Assume, "byte-level space covered as a structured alphabet, not arbitrary byte strings (fuzzing is out of family)", "virtual time; spin = more than 60000 scheduling points in one execution", "default schedule (C08 covers schedules of faults)")
 		c.Enumerate("c07/adversarial")
+		for _, bc := range c07BurstCases() {
+			c.DFS("c07/ls/connect-burst/"+bc.Elem.Name, explore.Bounds{Preempt: c.Pick(2, 3), Dev: 0, POR: true, MaxExec: c.Pick(3000, 100000)})
+		}
 	})
+	for _, bc := range c07BurstCases() {
+		bc := bc
+		RegisterScenario(&Scenario{Name: "c07/ls/connect-burst/" + bc.Elem.Name, Doc: "legacy SSE client: the server sends the endpoint event and " + bc.Elem.Name + " in one burst while Initialize is in progress; all interleavings of the reader goroutine with the handshake up to the preemption bound",
+			Run: func(p []int, m []vsched.ChoicePoint) explore.Outcome {
+				cfg := cfgFor(p)
+				_, o := c07Exec(bc, cfg)
+				return o
+			}})
+	}
 }
